@@ -1012,7 +1012,7 @@ class SymDomain(BaseDomain):
         flat = list(a.reshape(-1))
         dec = []
         for v in flat:
-            t = self.truth(v) if not isinstance(v, (bool, np.bool_)) else bool(v)
+            t = v if is_unknown(v) else (self.truth(v) if not isinstance(v, (bool, np.bool_)) else bool(v))   # elements of `arr != 0` are already three-valued
             if is_unknown(t):
                 if self._interp is None:
                     raise Unsupported("data dependent np.nonzero")
